@@ -229,7 +229,9 @@ struct LS {
 	std::string problem;
 	pthread_t loop_thread;
 	int next;
-	LS() : next(0) { pthread_mutex_init(&m, 0); }
+	bool loop_done;
+	pthread_cond_t cv;
+	LS() : next(0), loop_done(false) { pthread_mutex_init(&m, 0); pthread_cond_init(&cv, 0); }
 	int fresh(int kd, long long dl = 0) {
 		pthread_mutex_lock(&m);
 		int k = next++;
@@ -304,7 +306,11 @@ struct LFinal {
 		s->srv->set_timer_event(booster::ptime::now(), fence);
 	}
 };
-struct LRunner { LS *s; void operator()() { s->loop_thread = pthread_self(); try { s->srv->run(); } catch(...) { pthread_mutex_lock(&s->m); if(s->problem.empty()) s->problem = "run-threw"; pthread_mutex_unlock(&s->m); } } };
+struct LRunner { LS *s; void operator()() {
+	s->loop_thread = pthread_self();
+	try { s->srv->run(); } catch(...) { pthread_mutex_lock(&s->m); if(s->problem.empty()) s->problem = "run-threw"; pthread_mutex_unlock(&s->m); }
+	pthread_mutex_lock(&s->m); s->loop_done = true; pthread_cond_broadcast(&s->cv); pthread_mutex_unlock(&s->m);
+} };
 }
 
 // lstress seed reactor(e|p|s) producers ops
@@ -344,6 +350,18 @@ std::string c17_loop_stress(std::vector<std::string> const &tok)
 	for(int p = 0; p < producers; p++) for(int f = 0; f < 2; f++) fds.push_back(prod[p].fa[f]);
 	LFinal fin = { &st, fds };
 	srv.post(fin);
+	{
+		// the fence stops the loop within 60 s at the latest; a loop that does not even notice the posted handler
+		// (lost wake-up) would sleep for an hour: report it and force it out with stop()
+		struct timespec ts; clock_gettime(CLOCK_REALTIME, &ts); ts.tv_sec += 90;
+		pthread_mutex_lock(&st.m);
+		int rc = 0;
+		while(!st.loop_done && rc == 0) rc = pthread_cond_timedwait(&st.cv, &st.m, &ts);
+		bool stuck = !st.loop_done;
+		if(stuck && st.problem.empty()) st.problem = "loop-stuck";
+		pthread_mutex_unlock(&st.m);
+		if(stuck) srv.stop();
+	}
 	loop.join();
 	for(int p = 0; p < producers; p++) for(int f = 0; f < 2; f++) { ::close(prod[p].fa[f]); ::close(prod[p].fb[f]); }
 	if(!st.problem.empty()) return "lstress " + st.problem;
